@@ -400,6 +400,11 @@ func wellFormed(m *dm.Message) bool {
 	if m.Header.OpCode >= 16 || m.Header.RCode >= 16 {
 		return false
 	}
+	return wellFormedRecords(m)
+}
+
+// wellFormedRecords: everything but the 4-bit range of Header.OpCode / Header.RCode.
+func wellFormedRecords(m *dm.Message) bool {
 	for i := range m.Questions {
 		if !canonicalName(m.Questions[i].Name) {
 			return false
@@ -524,6 +529,14 @@ func execRT(t []string, o *vu.Out) string {
 		return res
 	}
 	oracleRoundTrip(o, "Pack", wf, m, perr, packed, true)
+	// Known finding header-4bit-overflow: OpCode / RCode are uint16 types but 4-bit wire fields;
+	// Header.pack neither masks nor rejects larger values, they spill into the flag bits.
+	if !wf && perr == nil && wellFormedRecords(m) {
+		var m2 dm.Message
+		if err := m2.Unpack(packed); err == nil && m2.Header != m.Header {
+			o.Fail("header-4bit-overflow", fmt.Sprintf("Header %+v packs and unpacks as %+v", m.Header, m2.Header))
+		}
+	}
 	return res
 }
 
